@@ -40,7 +40,7 @@ static vh::NamedCounter c_acq("acquired"), c_lock("via_lock"), c_tlw("via_try_lo
     c_adj_ok("adjust_ok"), c_adj_refused("adjust_refused"), c_adj_grow("adjust_grow_ok"), c_adj_shrink("adjust_shrink_ok"),
     c_saturating("saturating_range_acquired"), c_huge("middle_cell_acquired"), c_superset("superset_unlock"),
     c_zero("zero_length_acquired"), c_top("top_offset_acquired"), c_whole("whole_space_locks"),
-    c_adjacent("adjacent_neighbour_seen"), c_nested_conf("conflict_nested_or_partial");
+    c_adjacent("adjacent_neighbour_seen"), c_adjacent_ok("adjacent_to_held_range_acquired"), c_nested_conf("conflict_nested_or_partial");
 
 constexpr int NPT = 131, NCELL = 130, TOPCELL = 129, MAXW = 40;
 
@@ -101,7 +101,7 @@ static void mark_cells(Worker& w, int a, int b, const char* how) {
     for (int c = a; c < b && c < NCELL; ++c) {
         uint32_t prev = 0;
         if (!g_cell[c].compare_exchange_strong(prev, w.id + 1, vh::MO)) { clash.push_back(c); other = prev; }   // stays the other's cell
-        else g_payload[c] = w.id + 1;
+        else if (c != TOPCELL) g_payload[c] = w.id + 1;      // byte 2^64-1 is known not to be serialised (overlap/top-byte): no plain payload there
     }
     if (!clash.empty()) {
         bool only_top = clash.size() == 1 && clash[0] == TOPCELL;
@@ -119,7 +119,7 @@ static void unmark_cells(Worker& w, int a, int b) {
     for (int c = a; c < b && c < NCELL; ++c) {
         uint32_t me = w.id + 1;
         if (g_cell[c].load(vh::MO) != me) continue;          // an overlap was reported for this cell, it is the other holder's
-        if (g_payload[c] != me)
+        if (c != TOPCELL && g_payload[c] != me)
             vh::violation("exclusion/payload-overwritten", "plain memory covered by a held range was overwritten by another thread",
                           vh::JObj().kv("cell", c).kv("worker", w.id).kv("found", g_payload[c]).str());
         g_cell[c].compare_exchange_strong(me, 0, vh::MO);
@@ -341,6 +341,9 @@ static bool on_stuck(std::string& key, std::string& what, std::string& wit) {
                 key = "stuck/zero-length-range-survives-unlock(offset,0)";
                 what = "a zero-length range taken with try_lock_wait(x,0) is not released by unlock(x,0): a later lock of a covering "
                        "range blocks forever although nothing is held";
+            } else if (ph == 4) {
+                key = "stuck/adjacent-range-blocked";
+                what = "a locker of a range that only touches a held range (no common byte) never acquires it while the neighbour stays held";
             } else if (ph == 1) {
                 key = "stuck/whole-space-lock-at-quiescence";
                 what = "after every thread released its range a lock of the whole space never succeeds";
@@ -510,6 +513,34 @@ int main(int argc, char** argv) {
         done_vcpus.fetch_add(1, std::memory_order_acq_rel);
         if (v != 0) return;
         while (done_vcpus.load(std::memory_order_acquire) < nv) thread_usleep(200);
+        // adjacency: while [p,q) stays held, the ranges touching it on both sides are acquired by another thread.
+        // The holder waits for that thread without a time limit; if the neighbours block, the supervisor proves it
+        // (the helper is blocked and no recorded holder shares a byte with its range).
+        {
+            g_phase.store(4);
+            vh::Rng ra(vh::mix(vh::args().xseed(), 55));
+            int p = ra.pick({(int)ra.range(1, 62), 64, 65, (int)ra.range(66, 126)}), q = p + (int)ra.range(1, 2);
+            Spec mid = make_spec(ra, p, q), left = make_spec(ra, p - 1, p), right = make_spec(ra, q, q == 128 ? 130 : q + 1);
+            vh::event();
+            auto hm = g_lock->lock(mid.off, mid.len);
+            mark(W1, mid, "lock");
+            auto th = thread_enable_join(thread_create11([&] {
+                for (auto* sp : {&left, &right}) {
+                    set_blocked(W2, *sp, "lock(adjacent range)");
+                    auto h = g_lock->lock(sp->off, sp->len);
+                    clear_blocked(W2);
+                    mark(W2, *sp, "lock(adjacent)");
+                    c_adjacent_ok.add();
+                    unmark(W2, *sp);
+                    g_lock->unlock(h);
+                    vh::progress();
+                }
+            }));
+            thread_join(th);
+            unmark(W1, mid);
+            g_lock->unlock(hm);
+            vh::progress();
+        }
         // quiescence: nothing is held any more, the whole space can be locked
         g_phase.store(1);
         for (int c = 0; c < NCELL; ++c)
